@@ -87,7 +87,7 @@ PROPS = {
         domains=("solver", "faults")),
     "C13": solver_prop("Props/Properties_C13.v", "proof",
         "Coq proof: the run is a function of the consumed answers; error answers are last and determine the outcome; two-run fault-injection theorem; + fault enumeration on the implementation: every position of the fault-free trace, every callback kind, plus out-of-set answers",
-        "10 Coq theorems (Props/Properties_C13.v; Proofs/SolverTrace.v, SolverFaults.v, SolverInject.v), for any VersionSet operations with a correct equality, any fuel: the result is a function of the consumed prefix of the provider's answers; an error outcome is only returned because of an error answer of that very callback; an error answer is the LAST call of the run and the outcome is then the matching error carrying the queried package and version; FAULT INJECTION (two runs): if the fault-free run made the call that e answers, the run that receives a faulty answer to that same call (an error; for choose_version also a version outside the offered set) makes exactly the same calls with the same answers up to that point, then that call, and stops with ErrorInShouldCancel / ErrorChoosingPackageVersion / ErrorRetrievingDependencies(p, v) / Failure, whatever would have followed; a consumed out-of-set choose_version answer is the last call and the outcome is Failure, never a solution. Exploration: for each base run a fault is injected at every index of its callback trace (error at should_cancel / choose_version / get_dependencies; out-of-set version at choose_version): the faulty trace must equal the fault-free trace up to the fault, end there, and the result must be the matching error variant (with the queried package and version) resp. Failure; the Coq model must reproduce every faulty run.",
+        "8 Coq theorems (Props/Properties_C13.v; Proofs/SolverTrace.v, SolverFaults.v, SolverInject.v), for any VersionSet operations with a correct equality, any fuel: the result is a function of the consumed prefix of the provider's answers; an error outcome is only returned because of an error answer of that very callback; an error answer is the LAST call of the run and the outcome is then the matching error carrying the queried package and version; FAULT INJECTION (two runs): if the fault-free run made the call that e answers, the run that receives a faulty answer to that same call (an error; for choose_version also a version outside the offered set) makes exactly the same calls with the same answers up to that point, then that call, and stops with ErrorInShouldCancel / ErrorChoosingPackageVersion / ErrorRetrievingDependencies(p, v) / Failure, whatever would have followed; a consumed out-of-set choose_version answer is the last call and the outcome is Failure, never a solution. Exploration: for each base run a fault is injected at every index of its callback trace (error at should_cancel / choose_version / get_dependencies; out-of-set version at choose_version): the faulty trace must equal the fault-free trace up to the fault, end there, and the result must be the matching error variant (with the queried package and version) resp. Failure; the Coq model must reproduce every faulty run.",
         domains=("faults",)),
     "C14": solver_prop("Props/Properties_C14.v", "proof",
         "Coq proof by two invariants over the solver model (changed-index bookkeeping of partial_solution.rs; every non-deciding continuation re-queues the picked package) + per-decision check on the decision log of every replayed run",
